@@ -99,6 +99,7 @@ func (f *wireFam) dTC(t hotstuff.TimeoutCert) string {
 }
 
 func (f *wireFam) dAgg(a hotstuff.AggregateQC) string {
+	sigDesc := f.dSig(a.Sig()) // numbered before the attested QCs, as the model renders it
 	var ids []int
 	for id := range a.QCs() {
 		ids = append(ids, int(id))
@@ -108,7 +109,7 @@ func (f *wireFam) dAgg(a hotstuff.AggregateQC) string {
 	for _, id := range ids {
 		p = append(p, fmt.Sprintf("%d:%s", id, f.dQC(a.QCs()[hotstuff.ID(id)])))
 	}
-	return fmt.Sprintf("agg(v=%d,sig=%s,qcs={%s})", a.View(), f.dSig(a.Sig()), strings.Join(p, ","))
+	return fmt.Sprintf("agg(v=%d,sig=%s,qcs={%s})", a.View(), sigDesc, strings.Join(p, ","))
 }
 
 func (f *wireFam) dSI(s hotstuff.SyncInfo) string {
